@@ -1,5 +1,5 @@
 From Coq Require Import Reals ZArith List String Bool.
-From OV Require Import Ops RInst XR Gen.Paraxial Model.Paraxial Spec.S_ABCD Lemmas.L_Paraxial Lemmas.L_Paraxial2.
+From OV Require Import Ops RInst XR Gen.Paraxial Model.Paraxial Spec.S_ABCD Lemmas.L_Paraxial Lemmas.L_Paraxial2 Lemmas.L_Paraxial3.
 Local Open Scope R_scope.
 Import ListNotations.
 
@@ -183,3 +183,34 @@ Theorem C04_EPL_from_matrix :
        md m <> 0%R -> EPL pss = Fin (mb m / md m).
 Proof. exact EPL_from_matrix. Qed.
 Print Assumptions C04_EPL_from_matrix.
+
+Theorem C04_reversed_system_matrix :
+  forall (zl w0 : R) (ss : list asurf) (z0 : R),
+       Forall nonobj ss ->
+       mmul (sysmat ss z0) (mmul Jm (mmul (transfer (dfirst zl w0 ss z0)) (sysmat (arev zl ss) w0))) =
+       mmul Jm (transfer (zl - lastz ss z0 - w0)).
+Proof. exact reversed_system_matrix. Qed.
+Print Assumptions C04_reversed_system_matrix.
+
+Theorem C04_reversed_entries :
+  forall (M M' : mat) (d e : R),
+       mmul M (mmul Jm (mmul (transfer d) M')) = mmul Jm (transfer e) ->
+       mdet M <> 0%R ->
+       mc M' = (mc M / mdet M)%R /\
+       md M' = ((mc M * e + ma M) / mdet M)%R /\
+       ma M' = ((md M - d * mc M) / mdet M)%R.
+Proof. exact reversed_entries. Qed.
+Print Assumptions C04_reversed_entries.
+
+Theorem C04_f1_F1_from_forward_matrix :
+  forall (pobj ps1 : psurf XOps) (psr : list (psurf XOps)) (aobj s1 : asurf) (asr : list asurf) (zl : R),
+       Forall2 wf_surf (pobj :: ps1 :: psr) (aobj :: s1 :: asr) ->
+       a_obj aobj = true ->
+       Forall finite_media (s1 :: asr) ->
+       p_z (last (ps1 :: psr) pobj) = Fin zl ->
+       let M := sysmat (s1 :: asr) (a_z s1 - 1) in
+       mdet M <> 0%R -> mc M <> 0%R ->
+       f1 (pobj :: ps1 :: psr) = Fin (mdet M / mc M) /\
+       F1 (pobj :: ps1 :: psr) = Fin ((md M - mc M) / mc M).
+Proof. exact f1_F1_from_forward_matrix. Qed.
+Print Assumptions C04_f1_F1_from_forward_matrix.
